@@ -7,7 +7,7 @@
 #include "nmtools/array/view/triu.hpp"
 // pad: widths = [before_0..before_{D-1}, after_0..after_{D-1}] (fixed length 2*D), run-time fill value
 #define PAD(D) KERNEL int K(k_pad##D)(ARGS_IN, const size_t* widths, unsigned value, ARGS_OUT){ MK(D); return OBSV(view::pad(a, mk_arr<size_t,2*D>(widths), value)); }
-FOR_DIMS(PAD)
+FOR_DIMS4(PAD)
 // sliding_window: (scalar window, run-time axis) and (window per axis, axis=None)
 #define SLIDING(D) KERNEL int K(k_sliding_axis##D)(ARGS_IN, size_t window, int axis, ARGS_OUT){ MK(D); return OBSV(view::sliding_window(a, window, axis)); } \
   KERNEL int K(k_sliding_all##D)(ARGS_IN, const size_t* window, ARGS_OUT){ MK(D); return OBSV(view::sliding_window(a, mk_arr<size_t,D>(window))); }
@@ -15,8 +15,8 @@ FOR_DIMS(SLIDING)
 // tril / triu with run-time k
 #define TRI(D) KERNEL int K(k_tril##D)(ARGS_IN, int k, ARGS_OUT){ MK(D); return OBSV(view::tril(a, k)); } \
   KERNEL int K(k_triu##D)(ARGS_IN, int k, ARGS_OUT){ MK(D); return OBSV(view::triu(a, k)); }
-FOR_DIMS(TRI)
+FOR_DIMS4(TRI)
 // diagonal with run-time offset and axes (dim >= 2)
 #define DIAG(D) KERNEL int K(k_diagonal##D)(ARGS_IN, int offset, int axis1, int axis2, ARGS_OUT){ MK(D); return OBSV(view::diagonal(a, offset, axis1, axis2)); } \
   KERNEL int K(k_diagonal_default##D)(ARGS_IN, ARGS_OUT){ MK(D); return OBSV(view::diagonal(a)); }
-DIAG(2) DIAG(3)
+DIAG(2) DIAG(3) DIAG(4)
